@@ -7,6 +7,11 @@ descriptors of the process, minus the harness' own, must be back at the baseline
     source address;
   * after every reopen() / close() of a hio client: at most one descriptor belongs to the
     client after reopen, none after close.
+An application normally keeps handles on the connections it serves (hio.core.http keeps Requestant(remoter=ix)); a
+case says whether the harness plays such an application ("hold": keep every Remoter seen in server.ixes, and with hold=2
+also those seen in server.cxes).  Without a handle CPython's reference counting closes a socket the server merely
+dropped, which hides that the server itself never closed it; with a handle the descriptor is still open after
+server.close().  The verdict is always read from the descriptor table, never from the handles.
 No wall-clock signal is used: TCP on loopback completes connects and deliveries synchronously
 enough that a bounded number of service calls settles every step; a step that does not settle
 within the bound is counted as inconclusive and judges nothing.
@@ -30,13 +35,20 @@ ISOLATED = netns.isolate()       # own loopback: no other process can hold or ta
 
 PID = "C11"
 RULE = ("cases: server kind (plain / TLS) x <= 14 operations (raw client connect, TLS hello leaving the handshake pending, finish "
-        "handshake, send, client close, client reset, reconnect from the same source address = replacement, server service) "
+        "handshake, send, client close, client reset, reconnect from the same source address = replacement - before or after the server "
+        "noticed the reset, the newcomer optionally completing its TLS handshake so that it replaces an established connection -, "
+        "a peer that is only accepted (serviceAccepts) and not yet serviced, server service) x the application keeping handles on the "
+        "Remoters it saw in .ixes (/.cxes) or not, "
         "optionally ending with a batch of 2-5 peers that connect back to back, some giving up (RST / FIN) before one single service pass, ended by server.close(), optionally after a first open() that fails because the port is busy; and hio client histories (plain / TLS client, reopen / connect / close in any order against a "
         "harness listener); non-trivial = the server is closed with a handshake pending, or after a replacement, or with >= 2 "
-        "accepted connections; for clients: a reopen while connected; distinct = canonical hash")
+        "accepted connections, or with an accepted connection not yet serviced; for clients: a reopen while connected; distinct = canonical hash")
 ASSUMPTIONS = [
     "Linux loopback; descriptors are read from /proc/self/fd; CPython reference counting closes sockets nobody references, so only "
-    "descriptors still referenced by the endpoint (or leaked into a cycle) are observable",
+    "descriptors still referenced by the endpoint, by the application (cases with hold >= 1: the harness keeps the Remoter objects "
+    "it saw in the public server.ixes, hold = 2 also server.cxes, as an application serving those connections does) or leaked into "
+    "a cycle are observable; the handles only keep objects alive, the verdict is the descriptor table",
+    "Acceptor.serviceAccepts() is a public method a caller may call on its own (it is the whole service interface of a bare "
+    "Acceptor); sockets it queued in .axes count as accepted by the server",
     "a step that does not settle within 200 service calls is recorded as inconclusive, never as a violation",
     "the check process moves itself into a private network namespace (own loopback) when it may, so that ports cannot be taken "
     "by other processes; otherwise a port the harness itself cannot bind makes the case inconclusive",
@@ -95,6 +107,15 @@ def run_server_case(case, r):
     labels = []
     inconclusive = 0
     pending_hs = replaced = False
+    queued = 0
+    hold = case.get("hold", 0)      # 0: the application keeps no handle on a connection, 1: on those in .ixes, 2: also .cxes
+    handles = []                    # Remoters the application still refers to (only keeps them alive, judges nothing)
+
+    def keep():
+        if hold:
+            for rm in list(server.ixes.values()) + (list(server.cxes.values()) if tls and hold >= 2 else []):
+                if not any(rm is h for h in handles):
+                    handles.append(rm)
     try:
         if case.get("busy_first"):
             # another listener owns the port: the first open fails; what open() created must be released again, by
@@ -127,7 +148,25 @@ def run_server_case(case, r):
         def svc(n=3):
             for _ in range(n):
                 server.serviceConnects()
+                keep()
                 server.serviceReceivesAllIx()
+
+        def handshake_full(c):
+            nonlocal inconclusive
+            c["tls"] = ctx.wrap_socket(c["raw"], server_hostname="localhost", do_handshake_on_connect=False)
+            for _ in range(200):
+                try:
+                    c["tls"].do_handshake()
+                    c["state"] = "secured"
+                    break
+                except (ssl.SSLWantReadError, ssl.SSLWantWriteError):
+                    svc(1)
+                except OSError:
+                    c["state"] = "broken"
+                    break
+            else:
+                inconclusive += 1
+            svc()
 
         def connect(bind=None):
             s = socket.socket(socket.AF_INET, socket.SOCK_STREAM)
@@ -160,22 +199,14 @@ def run_server_case(case, r):
                 c = connect()
                 svc()
                 if c is not None and tls:
-                    c["tls"] = ctx.wrap_socket(c["raw"], server_hostname="localhost", do_handshake_on_connect=False)
-                    for _ in range(200):
-                        try:
-                            c["tls"].do_handshake()
-                            c["state"] = "secured"
-                            break
-                        except (ssl.SSLWantReadError, ssl.SSLWantWriteError):
-                            svc(1)
-                        except OSError:
-                            c["state"] = "broken"
-                            break
-                    else:
-                        inconclusive += 1
-                    svc()
+                    handshake_full(c)
             elif k == "svc":
                 svc(2)
+            elif k == "queue":
+                # a peer connects and the server only accepts it (public Acceptor.serviceAccepts()): the connection
+                # waits in .axes until the next serviceConnects() - or until the server is closed
+                connect()
+                server.serviceAccepts()
             elif not live:
                 continue
             else:
@@ -224,14 +255,22 @@ def run_server_case(case, r):
                     svc()
                 elif k == "replace":
                     addr = c["addr"]
+                    was = c["state"]
                     rst_close(c["tls"] or c["raw"])
                     c["state"] = "closed"
                     if op[2]:
                         svc()          # the server may or may not have noticed the reset before the newcomer arrives
-                    if connect(bind=addr) is not None:
+                    n = connect(bind=addr)
+                    if n is not None:
                         replaced = True
                         labels.append("replacement")
+                        if tls:
+                            labels.append("replacement-of-" + ("established" if was == "secured" else "handshaking"))
                     svc()
+                    if n is not None and tls and len(op) > 3 and op[3]:
+                        handshake_full(n)        # the newcomer completes its handshake: it takes the place in .ixes
+                        if n["state"] == "secured":
+                            labels.append("replacement-secured")
         fb = case.get("final_batch")
         if fb:
             # several peers connect back to back, some give up (RST / FIN) before the server has serviced its accepts;
@@ -249,10 +288,14 @@ def run_server_case(case, r):
             import time as _time
             _time.sleep(0.002)          # let loopback deliver the resets before the accept pass (not a correctness signal)
             server.serviceConnects()
+            keep()
             labels.append("accept-batch-with-gone-peers")
         if tls and getattr(server, "cxes", None):
             pending_hs = True
             labels.append("handshake-pending-at-close")
+        queued = len(server.axes)
+        if queued:
+            labels.append("accepted-not-yet-serviced-at-close")
         naccepted = len(server.ixes)
         server.close()
     except Exception as ex:      # noqa: BLE001
@@ -278,25 +321,56 @@ def run_server_case(case, r):
                     mine.add(fd)
     left = {fd: ln for fd, ln in sock_fds().items() if fd not in base and fd not in mine}
     if left:
-        where = []
+        # attribute every leftover descriptor to its holder (diagnostics and signature only; the verdict is `left`)
+        def fd_of(sock):
+            try:
+                return sock.fileno() if sock is not None else -1
+            except (OSError, ValueError):
+                return -1
+
+        groups = {}          # signature suffix -> [description]
+        seen = set()
+
+        def put(suffix, fd, text):
+            if fd in left and fd not in seen:
+                seen.add(fd)
+                groups.setdefault(suffix, []).append(text)
+
+        current = []
         for name in ("ixes", "cxes"):
             for ca, rm in getattr(server, name, {}).items():
-                try:
-                    if rm.cs is not None and rm.cs.fileno() in left:
-                        where.append("%s[%r]" % (name, ca))
-                except (OSError, ValueError):
-                    pass
-        if server.ss is not None:
-            try:
-                if server.ss.fileno() in left:
-                    where.append("listen socket")
-            except (OSError, ValueError):
-                pass
-        sig = "C11/server-close-left-sockets-open"
-        if where and all(w.startswith("cxes") for w in where):
-            sig += "(TLS connections with a pending handshake)"
-        r.fail(sig, "%d socket descriptors still open after %s.close(): %r held by %r" % (
-            len(left), type(server).__name__, sorted(left.values()), where))
+                current.append(rm)
+                put("(TLS connections with a pending handshake)" if name == "cxes" else "", fd_of(rm.cs), "%s[%r]" % (name, ca))
+        put("", fd_of(server.ss), "listen socket")
+        for cs, ca in list(server.axes):
+            put("(accepted connections not yet serviced)", fd_of(cs), "axes: %r accepted by serviceAccepts(), never serviced" % (ca,))
+        for rm in handles:
+            if not any(rm is x for x in current):
+                if not replaced:
+                    sfx = ""        # dropped from the tables for another reason than a replacement
+                elif not tls:
+                    sfx = "(connection replaced by a newer one from the same address)"
+                elif getattr(rm, "connected", False):
+                    sfx = "(established TLS connection replaced by a newer one from the same address)"
+                else:
+                    sfx = "(handshaking TLS connection replaced by a newer one from the same address)"
+                put(sfx, fd_of(rm.cs), "connection from %r no longer in .ixes/.cxes, the application still holds its Remoter" % (rm.ca,))
+        for fd in left:
+            put("", fd, "unattributed %s" % left[fd])
+        for sfx in sorted(groups):
+            r.fail("C11/server-close-left-sockets-open" + sfx, "%d socket descriptors still open after %s.close() (all leftovers: %r): %r" % (
+                len(groups[sfx]), type(server).__name__, sorted(left.values()), groups[sfx]))
+    for rm in handles:          # the application lets go of its handles
+        try:
+            if rm.cs is not None:
+                rm.cs.close()
+        except OSError:
+            pass
+    for cs, _ca in list(server.axes):
+        try:
+            cs.close()
+        except OSError:
+            pass
     for c in clients:
         for s in (c["tls"], c["raw"]):
             if s is not None:
@@ -304,8 +378,9 @@ def run_server_case(case, r):
                     s.close()
                 except OSError:
                     pass
-    r.nontrivial = pending_hs or replaced or naccepted >= 2
+    r.nontrivial = pending_hs or replaced or naccepted >= 2 or queued > 0
     r.labels.extend(sorted(set(labels)) + ["server-tls" if tls else "server-plain"])
+    r.labels.append("app-holds-handles:%d" % hold)
     if naccepted >= 2:
         r.labels.append(">=2 accepted")
     if inconclusive:
@@ -392,15 +467,28 @@ def run_case(case):
     return r
 
 
-def _server_strategy():
+def _server_strategy(focus=False):
     idx = st.integers(0, 5)
+    replace = st.tuples(st.just("replace"), idx, st.booleans(), st.booleans()).map(list)
+    if focus:
+        # short histories around replacement: connections in every stage (accepted only, handshake pending, established)
+        # whose peer comes back from the same source address, the application keeping handles on what it serves
+        setup = st.lists(st.sampled_from([[["conn"]], [["secure"]], [["conn"], ["hello", 5]]]), min_size=1, max_size=3)
+        tail = st.lists(st.one_of(st.just(["conn"]), st.just(["secure"]), st.tuples(st.just("hello"), idx).map(list),
+                                  st.tuples(st.just("finish"), idx).map(list), replace, st.just(["svc"]), st.just(["queue"]),
+                                  st.tuples(st.just("send"), idx, st.integers(1, 2000)).map(list)), max_size=3)
+        ops = st.tuples(setup, replace, tail).map(lambda t: [o for grp in t[0] for o in grp] + [t[1]] + t[2])
+        return st.fixed_dictionaries({"kind": st.just("server"), "tls": st.sampled_from([False, True, True]),
+                                      "ops": ops, "hold": st.sampled_from([0, 1, 1, 2, 2]),
+                                      "busy_first": st.just(False), "final_batch": st.none()})
     op = st.one_of(st.just(["conn"]), st.just(["conn"]), st.just(["svc"]), st.just(["secure"]), st.just(["secure"]),
                    st.tuples(st.just("hello"), idx).map(list), st.tuples(st.just("hello"), idx).map(list),
                    st.tuples(st.just("finish"), idx).map(list),
                    st.tuples(st.just("send"), idx, st.integers(1, 2000)).map(list),
                    st.tuples(st.just("close"), idx).map(list), st.tuples(st.just("rst"), idx).map(list),
-                   st.tuples(st.just("replace"), idx, st.booleans()).map(list))
+                   replace, replace, st.just(["queue"]))
     return st.fixed_dictionaries({"kind": st.just("server"), "tls": st.booleans(), "ops": st.lists(op, min_size=1, max_size=14),
+                                  "hold": st.sampled_from([0, 1, 2, 2]),
                                   "busy_first": st.sampled_from([False, False, False, True]),
                                   "final_batch": st.one_of(st.none(), st.none(),
                                                            st.lists(st.sampled_from(["live", "live", "rst", "fin"]), min_size=2, max_size=5))})
@@ -414,4 +502,5 @@ def _client_strategy():
 def searches(tier):
     q = tier == "quick"
     return [("server-histories", _server_strategy(), 500 if q else 2500),
+            ("server-replacements", _server_strategy(focus=True), 200 if q else 1000),
             ("client-histories", _client_strategy(), 300 if q else 1500)]
